@@ -42,6 +42,7 @@ type Script struct {
 	nfresh   int
 	tagSort  map[string]string // tag -> SMT sort of the stored term
 	epochPar map[int][]epochParent
+	epochFrontier map[int]string
 	nepoch   int
 	strlits  map[string]string
 	sfInfos  map[string]*specFuncInfo
@@ -49,7 +50,7 @@ type Script struct {
 }
 
 func NewScript() *Script {
-	return &Script{sorts: NewSorts(), declared: map[string]bool{}, tagSort: map[string]string{}, epochPar: map[int][]epochParent{}, strlits: map[string]string{}}
+	return &Script{sorts: NewSorts(), declared: map[string]bool{}, tagSort: map[string]string{}, epochPar: map[int][]epochParent{}, epochFrontier: map[int]string{}, strlits: map[string]string{}}
 }
 
 func (sc *Script) emit(format string, a ...interface{}) {
@@ -126,17 +127,47 @@ func (sc *Script) tagDefault(tag string, epoch int) string {
 		}
 		sc.emit("(assert (= %s %s))", name, t)
 	} else {
-		sc.initTag(tag, name)
+		sc.initTag(tag, name, sc.epochFrontierTerm(epoch))
 	}
 	return name
 }
 
 // initTag asserts well-formedness facts of a freshly introduced (unconstrained) tag value.
-func (sc *Script) initTag(tag, name string) {
+// epochFrontierTerm: allocation frontier at the time the epoch's unconstrained heap was introduced.
+func (sc *Script) epochFrontierTerm(epoch int) string {
+	if f, ok := sc.epochFrontier[epoch]; ok {
+		return f
+	}
+	if tag := "!frontier"; epoch == 0 {
+		sc.tagSort[tag] = "Int"
+		return sc.tagDefault(tag, 0)
+	}
+	return ""
+}
+
+func (sc *Script) initTag(tag, name, frontier string) {
+	// closed heap: references stored in an unconstrained heap value are older than the frontier at that time
+	if frontier != "" && tag != "!frontier" {
+		switch srt := sc.tagSort[tag]; {
+		case srt == "(Array Ref Ref)":
+			sc.emit("(assert (forall ((r Ref)) (! (< (rb (select %s r)) %s) :pattern ((select %s r)))))", name, frontier, name)
+		case srt == "(Array Ref Slice)":
+			sc.emit("(assert (forall ((r Ref)) (! (< (rb (sarr (select %s r))) %s) :pattern ((select %s r)))))", name, frontier, name)
+		case strings.HasPrefix(tag, "MV!") && strings.HasSuffix(srt, " Ref))"):
+			sc.emit("(assert (forall ((r Ref) (k %s)) (! (< (rb (select (select %s r) k)) %s) :pattern ((select (select %s r) k)))))", sc.tagSort["K:"+tag], name, frontier, name)
+		case strings.HasPrefix(tag, "MV!") && strings.HasSuffix(srt, " Slice))"):
+			sc.emit("(assert (forall ((r Ref) (k %s)) (! (< (rb (sarr (select (select %s r) k))) %s) :pattern ((select (select %s r) k)))))", sc.tagSort["K:"+tag], name, frontier, name)
+		}
+	}
 	switch {
 	case strings.HasPrefix(tag, "MD!"):
 		// nil map has empty domain
 		sc.emit("(assert (forall ((k %s)) (! (not (select (select %s null) k)) :pattern ((select (select %s null) k)))))", sc.mapKeySort(tag), name, name)
+	case strings.HasPrefix(tag, "MV!"):
+		if rf := sc.tagSort["VR:"+tag]; rf != "" {
+			ks := sc.tagSort["K:"+tag]
+			sc.emit("(assert (forall ((r Ref) (k %s)) (! %s :pattern ((select (select %s r) k)))))", ks, strings.ReplaceAll(rf, "$v", fmt.Sprintf("(select (select %s r) k)", name)), name)
+		}
 	case strings.HasPrefix(tag, "ML!"):
 		sc.emit("(assert (= (select %s null) 0))", name)
 		sc.emit("(assert (forall ((r Ref)) (! (>= (select %s r) 0) :pattern ((select %s r)))))", name, name)
